@@ -477,14 +477,13 @@ Proof.
       destruct r2; inversion H; subst; (split; [congruence|split; [congruence|exact K]]).
 Qed.
 
-Lemma extract_output_values_ok : forall oi outs c c' r, outidx_ok oi ->
-  extract_output_values G tc oi outs c = (c', r) ->
+Lemma extract_output_values_ok : forall nout oi outs c c' r, outidx_ok oi ->
+  extract_output_values G tc nout oi outs c = (c', r) ->
   cvars c' = cvars c /\ calt c' = calt c /\ panic_free r.
 Proof.
-  intros oi outs c c' r (Hl & Hv) H. unfold extract_output_values in H.
-  destruct (Nat.eqb (length outs) (num_outputs oi)) eqn:El; cbn [negb] in H.
-  - apply Nat.eqb_eq in El.
-    destruct (extract_loop G tc (combine (tc_expected_indices tc) oi) outs (ctx_swap_vars c)) as [c1 r1] eqn:E.
+  intros nout oi outs c c' r (Hl & Hv) H. unfold extract_output_values in H.
+  destruct (Nat.eqb (length outs) nout) eqn:El; cbn [negb] in H.
+  - destruct (extract_loop G tc (combine (tc_expected_indices tc) oi) outs (ctx_swap_vars c)) as [c1 r1] eqn:E.
     inversion H; subst c' r. clear H.
     assert (Hp : forall idx o, In (idx, o) (combine (tc_expected_indices tc) oi) ->
               index_ok tc width false idx /\ oi_ok o).
@@ -920,6 +919,7 @@ Definition phase2 (st1 : istate) : getrow_result :=
               GRRow {| er_line := de_line row; er_inputs := inputs; er_expected := expected;
                        er_update_output := de_update_output row |}
                     {| i_ctx := i_ctx st1; i_iter := i_iter st1; i_outidx := i_outidx st1;
+                       i_nout := i_nout st1;
                        i_prev := Some (de_entries row); i_cache := rest; i_log := i_log st1 |}
           | Panic s => GRPanic s
           | _ => GRPanic 0%N
@@ -947,7 +947,7 @@ Lemma get_row_unfold : forall fuel st, get_row G tc fuel st =
   | _ => phase2 st
   end.
 Proof.
-  intros fuel [c it oi pv [|r0 rest0] lg]; unfold get_row, phase2; cbn [i_cache i_iter i_ctx]; [|reflexivity].
+  intros fuel [c it oi no pv [|r0 rest0] lg]; unfold get_row, phase2; cbn [i_cache i_iter i_ctx]; [|reflexivity].
   destruct (snext G fuel it c) as [w l it' c'|it' c'|[x|s] c'|s|]; reflexivity.
 Qed.
 
@@ -1016,9 +1016,9 @@ Proof.
     try exact I; try contradiction; try exact Hp.
   destruct (er_update_output row).
   - destruct (D (i_log st1) (RW, er_inputs row)) as [e|outs]; [exact I|].
-    destruct (extract_output_values G tc (i_outidx st1) outs
+    destruct (extract_output_values G tc (i_nout st1) (i_outidx st1) outs
                 (ctx_set_outputs (i_ctx st1) (outs_map outs))) as [c2 r] eqn:E.
-    destruct (extract_output_values_ok G _ _ _ _ _ (proj1 (proj2 (proj2 Hp))) E) as (A & B & K).
+    destruct (extract_output_values_ok G _ _ _ _ _ _ (proj1 (proj2 (proj2 Hp))) E) as (A & B & K).
     cbn [ctx_set_outputs cvars calt] in A, B.
     destruct r as [vals|e|s|]; [|exact K|contradiction|contradiction].
     cbn [it_post]. apply Inv_with_ctx_log; assumption.
